@@ -41,7 +41,9 @@ func (e *engine) grammarObls(prop string, g *grammarDecl) []*obligation {
 			o.Status, o.Output = "refuted", "grammar scan: the grammar declares: "+strings.Join(have, " | ")
 		}
 	}
-	out = append(out, o)
+	if len(g.Precedence) > 0 {
+		out = append(out, o)
+	}
 	// generated driver
 	o2 := &obligation{Func: "module", Name: "module/grammar/generated", Kind: "frame", Label: prop + ".grammar", Props: []string{prop}, Pos: pos,
 		Clause: g.Generated + " is what `" + strings.Join(g.Command, " ") + "` generates from " + g.Source}
